@@ -290,6 +290,7 @@ type sched struct {
 	candBuf      []*G
 	stepWaiters  []*G
 	forced       []*G
+	lastFire     int64
 }
 
 // state shared with running goroutines (plain words, accessed only by the one
@@ -692,6 +693,12 @@ func (s *sched) choose() (g *G, fire bool) {
 		return nil, false
 	}
 	if s.fair {
+		// real time passes even while goroutines spin: do not let a busy loop
+		// hold back sleepers and tickers for ever
+		if len(s.timers) > 0 && s.step-s.lastFire > 3000 {
+			s.lastFire = s.step
+			return nil, true
+		}
 		best := cands[0]
 		for _, x := range cands[1:] {
 			if x.lastRun < best.lastRun {
